@@ -266,9 +266,11 @@ def r3(repo, run):
     verdicts = set()
     for p, e in loads:
         ld = e.kw.get('Loader') or (e.args[1] if len(e.args) > 1 else None)
-        if ld is None or ld.closure is None:
-            verdicts.add(('bad', 'the loader is not created per parse by a local factory: loader <-> builder binding would be shared'))
+        if ld is not None and ld.closure is None and ld.text in repo.classes:
+            verdicts.add(('bad', 'the loader class itself is handed to PyYAML: no per-parse factory binds the builder to the loader instance'))
             continue
+        if ld is None or ld.closure is None:
+            raise AnalysisError('yaml.parse: the Loader argument of yaml.load_all (%s) is not a function the analysis can follow' % (ld.text[:60] if ld is not None else None))
         t, cps = Tracer(repo, follow_exceptions=False).trace_closure(ld)
         for q in cps:
             mk = [x for x in q.events if x.kind == 'call' and x.callee == 'AwesomeyamlLoader']
